@@ -51,8 +51,15 @@ func verifTyped(text string, typ string) (any, bool) {
 		}
 		return v, true
 	case "boolean":
-		v, err := strconv.ParseBool(text)
-		return v, err == nil
+		// a boolean travels as true or false; Go's ParseBool also takes 1, t, T, TRUE, 0, f, ... which
+		// are not serialisations of a boolean (the oracle used to share that call with the implementation)
+		switch text {
+		case "true":
+			return true, true
+		case "false":
+			return false, true
+		}
+		return nil, false
 	}
 	return text, true
 }
